@@ -2,7 +2,7 @@
 # runs tools/mutrun.py for every check, cheapest checks first; results in .work/mut/<ID>/
 cd "$(dirname "$0")/.."
 export VERIF_SHARDS=${VERIF_SHARDS:-8}
-for id in C09 C14 C12 C19 C17 C20 C11 C13 C10 C07 C08 C18 C16 C06 C15 C03; do
+for id in ${IDS:-C12 C19 C17 C20 C11 C13 C10 C07 C08 C16 C06 C15 C03}; do
   tools/mutrun.py $id --cap ${CAP:-30} > .work/mutrun-$id.out 2>&1
   tail -1 .work/mutrun-$id.out
 done
